@@ -20,6 +20,9 @@ def oracle(rules, default, name, roles, depth=0):
             return True
         if body == '!':
             return False
+        if body.startswith('not '):
+            r = ev(body[4:], d)
+            return None if r is None else (not r)
         if body.startswith('role:'):
             return body[5:] in roles
         if body.startswith('rule:'):
@@ -60,7 +63,8 @@ def acyclic(rules, default):
 def run(ctx, rep):
     scs = []
     defaults = [(None, None), ('d', None), ('zz', None), ({'check': '@'}, None), ({'check': 'role:r0'}, None),
-                ({'check': '!'}, None), ('', None), (None, 'd'), (None, 'zz'), ('', 'd'), ('a', 'd')]
+                ({'check': '!'}, None), ('', None), (None, 'd'), (None, 'zz'), ('', 'd'), ('a', 'd'),
+                (None, ''), ('', ''), ({'check': 'not role:r0'}, '')]
     for combo in itertools.product(range(len(BODIES)), repeat=len(NAMES)):
         rules = {}
         for i, (n, bi) in enumerate(zip(NAMES, combo)):
@@ -81,13 +85,9 @@ def run(ctx, rep):
                     continue
                 sc['_eff'] = eff
                 scs.append(sc)
-    if not ctx.thorough:
-        ctx.rng.shuffle(scs)
-        scs = scs[:ctx.n(900, 10 ** 9)]
-    rep.rules.append('rule sets over names {a,b,d,default} x bodies {absent,@,!,role:r0,rule:<next>} (acyclic ones) x 11 ways '
+    rep.rules.append('rule sets over names {a,b,d,default} x bodies {absent,@,!,role:r0,rule:<next>} (acyclic ones) x 14 ways '
                      'of configuring the default rule (unset, defined/undefined name, check object, empty string, via constructor '
-                     'or policy_default_rule option) x 5 queried names x 2 role sets; %d scenarios%s'
-                     % (len(scs), '' if ctx.thorough else ' (random subset of the exhaustive table)'))
+                     'or policy_default_rule option) x 5 queried names x 2 role sets; %d scenarios (complete table)' % len(scs))
 
     def check(sc, outs):
         it = iter(outs)
